@@ -2249,9 +2249,10 @@ func (gs *GossipSubRouter) makePrune(p peer.ID, topic string, doPX bool, isUnsub
 		return &pb.ControlPrune{TopicID: &topic}
 	}
 
-	backoff := uint64(gs.params.PruneBackoff / time.Second)
+	// the period is stated in whole seconds: round up, so that it is never shorter than the one we enforce
+	backoff := uint64((gs.params.PruneBackoff + time.Second - 1) / time.Second)
 	if isUnsubscribe {
-		backoff = uint64(gs.params.UnsubscribeBackoff / time.Second)
+		backoff = uint64((gs.params.UnsubscribeBackoff + time.Second - 1) / time.Second)
 	}
 
 	var px []*pb.PeerInfo
